@@ -49,7 +49,7 @@ pub fn roundtrip(acc: &mut Acc, e: &Envelope, model_bytes: Option<Vec<u8>>, clas
 
 pub fn run(ctx: &Ctx) -> i32 {
     let th = ctx.tier.thorough();
-    let w = if th { 7 } else { 6 };
+    let w = if th { 8 } else { 7 };
     let leaves = families::leaf_alphabet();
     let mut acc = leaves.par_iter().enumerate().with_max_len(1).map(|(li, v)| {
         let mut acc = Acc::new();
